@@ -127,7 +127,7 @@ Fixpoint all_some {X} (l : list (option X)) : option (list X) :=
 
 Definition concatenate_hamiltonian (k : kind) (hs : list ham) : herror + hresult :=
   if oper_ids_clash hs then inl (EOperIds k) else
-  let us := sort_by (fun u => new_id hs u) (uniq hs) in
+  let us := sort_by (new_id hs) (uniq hs) in
   match all_some (map (fun u => complete_row k (row_of hs (e_op (snd u)))) us) with
   | None => inl ENoInfer
   | Some rows => inr (mkHRes (map (fun u => e_op (snd u)) us) (map (new_id hs) us) rows (mappings_from hs 0 hs))
